@@ -66,9 +66,9 @@ def p3s(timeout=900):
 
 def cases(tier):
     q = tier == "quick"
-    cs = [p1(6 if q else 10, 900 if q else 3000)]
+    cs = [p1(6 if q else 7, 900 if q else 3000)]
     for r in range(6):
-        cs.append(p2(r, 6 if q else 12, 900 if q else 3000))
+        cs.append(p2(r, 6 if q else 8, 900 if q else 3000))
     for cls in range(12):
         cs.append(p3(cls, 12, 900 if q else 3000))
     # full-width nondecimal literals (#H + up to 16 hex digits) through every reader whose type they fit
@@ -85,7 +85,7 @@ def cases(tier):
 
 
 META = dict(
-    bounds=dict(decimal_literal_len="1..7 quick / 1..10 thorough", integer_literal_len="1..8 quick / 1..12 thorough"),
+    bounds=dict(decimal_literal_len="1..6 quick / 1..7 thorough", integer_literal_len="1..6 quick / 1..8 thorough, #H literals to 16 digits, decimal literals at the edge of each type to 20 characters"),
     outside=["literals longer than the bound (digits 15..25 of the statement)", "the correctly-rounded value of libc strtod/strtof itself "
              "(libc is not repository code; the check proves the library hands libc exactly the literal and returns its result unchanged)",
              "decimal literals with exponent or fraction read through the integer readers (the statement speaks of integer literals)"],
